@@ -267,6 +267,23 @@ func c08(r *hx.Run, onlyCrash bool) {
 				}
 				binary.LittleEndian.PutUint64(b, v)
 				valCase(r, q, &validate.Options{}, onlyCrash, "mask:"+fld)
+				// the same quote under a policy that pins exactly these bytes (and under one that pins the OTHER field to the quote's
+				// value): an expectation the quote meets does not make a reserved bit legal
+				if bit%4 == 0 || thorough {
+					pin := &validate.Options{}
+					other := &validate.Options{}
+					if fld == "xfam" {
+						pin.TdQuoteBodyOptions.Xfam = append([]byte{}, b...)
+						other.TdQuoteBodyOptions.TdAttributes = append([]byte{}, q.TdQuoteBody.TdAttributes...)
+					} else {
+						pin.TdQuoteBodyOptions.TdAttributes = append([]byte{}, b...)
+						other.TdQuoteBodyOptions.Xfam = append([]byte{}, q.TdQuoteBody.Xfam...)
+					}
+					both := &validate.Options{TdQuoteBodyOptions: validate.TdQuoteBodyOptions{Xfam: append([]byte{}, q.TdQuoteBody.Xfam...), TdAttributes: append([]byte{}, q.TdQuoteBody.TdAttributes...)}}
+					valCase(r, q, pin, onlyCrash, "mask+pinned:"+fld)
+					valCase(r, q, other, onlyCrash, "mask+other-pinned:"+fld)
+					valCase(r, q, both, onlyCrash, "mask+both-pinned:"+fld)
+				}
 			}
 		}
 	}
